@@ -141,11 +141,78 @@ class SymSeq:
     def elem_sort(self, c=0):
         return self.cols[c].range()
 
+    shape = None     # optional structure of one element (see shape_of / unflatten): nested tuples / lists / dicts of scalars
+
     def get(self, i):
-        """i: z3 Int term.  Returns Sym or a python list of Syms (row)."""
+        """i: z3 Int term.  Returns Sym, a row (python list of Syms) or a structured value rebuilt from the columns."""
+        if self.shape is not None:
+            it = iter([z3.Select(c, i) for c in self.cols])
+            return unflatten(self.shape, it)
         if self.width is None:
             return Sym(z3.Select(self.cols[0], i))
         return RowVal([Sym(z3.Select(c, i)) for c in self.cols], self.kind)
+
+
+def shape_of(v):
+    """Structure of a value made of scalars: ('s', sort) | ('o', sort) | ('t'|'l'|'r', [shapes]) | ('d', [(key, shape)])."""
+    if isinstance(v, Opaque):
+        return ('o', v.term.sort())
+    if is_scalar(v):
+        return ('s', sort_of_value(v))
+    if isinstance(v, RowVal):
+        return ('r', [shape_of(x) for x in v])
+    if isinstance(v, tuple):
+        return ('t', [shape_of(x) for x in v])
+    if isinstance(v, list):
+        return ('l', [shape_of(x) for x in v])
+    if isinstance(v, dict):
+        return ('d', [(k, shape_of(x)) for k, x in v.items()])
+    raise OutOfSubset("no element shape for %r" % (v,))
+
+
+def flatten(v, shape):
+    k = shape[0]
+    if k == 's':
+        return [to_z3(v, sort=shape[1])]
+    if k == 'o':
+        return [v.term]
+    if k in ('t', 'l', 'r'):
+        out = []
+        for x, sh in zip(v, shape[1]):
+            out += flatten(x, sh)
+        return out
+    if k == 'd':
+        out = []
+        for key, sh in shape[1]:
+            out += flatten(v[key], sh)
+        return out
+    raise OutOfSubset("shape %r" % (shape,))
+
+
+def shape_sorts(shape):
+    k = shape[0]
+    if k in ('s', 'o'):
+        return [shape[1]]
+    if k in ('t', 'l', 'r'):
+        return [s for sh in shape[1] for s in shape_sorts(sh)]
+    return [s for _, sh in shape[1] for s in shape_sorts(sh)]
+
+
+def unflatten(shape, it):
+    k = shape[0]
+    if k == 's':
+        return Sym(next(it))
+    if k == 'o':
+        return Opaque(next(it))
+    if k == 't':
+        return tuple(unflatten(sh, it) for sh in shape[1])
+    if k == 'l':
+        return [unflatten(sh, it) for sh in shape[1]]
+    if k == 'r':
+        return RowVal([unflatten(sh, it) for sh in shape[1]])
+    if k == 'd':
+        return {key: unflatten(sh, it) for key, sh in shape[1]}
+    raise OutOfSubset("shape %r" % (shape,))
 
 
 class RowVal(list):
